@@ -39,6 +39,9 @@ def _resp(kind):
 
 
 def _noop_method(ex, frame, e, base):
+    import ast as _ast
+    if not any(isinstance(a, _ast.Starred) for a in e.args):
+        ex.eval_args(e, frame)      # the arguments are evaluated (their constructors may carry obligations)
     return VNone()
 
 
@@ -100,7 +103,7 @@ def _session_call(kind):
             ex.assume(ex.st.store[new.rid]['_lookup'].t == args[0].t)
             ex.assume(z3.Implies(_b(args[1]), ex.st.store[new.rid]['_readonly'].t))
             ex.st.ghost['new_selection'] = new
-            return VTuple([RefS('Snapshot', recent=INT, permanent_flags=RefS('FlagList'), flags=RefS('FlagList'),
+            return VTuple([RefS('Snapshot', recent=INT, exists=INT, permanent_flags=RefS('FlagList'), flags=RefS('FlagList'),
                                 next_uid=INT, uid_validity=INT, first_unseen=INT,
                                 mailbox_id=RefS('Oid')).fresh('snapshot'), new])
         if kind in ('fetch_messages', 'update_flags', 'search_mailbox'):
@@ -111,6 +114,21 @@ def _session_call(kind):
             return sel
         raise Unsupported(kind)
     return model
+
+
+def _exists_site(ex, frame, e):
+    """ExistsResponse(n) in do_select: the count the client is told is the count of the VIEW the server will number from
+    (the new selection's synchronized messages) -- not the snapshot's, which another session may have outdated between
+    snapshot() and update_selected(); the first fork has nothing to compare with and would never repair the difference"""
+    from pyvc import builtins_model as bm
+    args, kw = ex.eval_args(e, frame)
+    new = ex.st.ghost.get('new_selection')
+    if new is not None and ex.c.qualname.endswith('do_select'):
+        sm = ex.st.store[new.rid]['_messages']
+        uids = ex.st.store[sm.rid]['_uids']
+        ex.oblige(f'{ex.c.name}/ExistsResponse/is_the_count_of_the_view_the_server_numbers_from',
+                  _t(args[0]) == _t(bm.card(ex, uids)))
+    return RefS('Untagged').fresh('untagged')
 
 
 def _silence_site(ex, frame, e, base):
@@ -140,7 +158,7 @@ CALLS = {
     'ResponseCode.of': _opaque('Code'), 'MessageAttributes': _opaque('MsgAttrs'),
     'FetchResponse': _opaque('Untagged'), 'SearchResponse': _opaque('Untagged'),
     'FetchValue.of': _opaque('FetchValue'), 'List': _opaque('PList'), 'Number': _opaque('PNumber'),
-    'FlagsResponse': _opaque('Untagged'), 'ExistsResponse': _opaque('Untagged'),
+    'FlagsResponse': _opaque('Untagged'), 'ExistsResponse': lambda ex, frame, e, base=None: _exists_site(ex, frame, e),
     'RecentResponse': _opaque('Untagged'), 'PermanentFlags': _opaque('Code'), 'UidNext': _opaque('Code'),
     'UidValidity': _opaque('Code'), 'Unseen': _opaque('Code'), 'MailboxId': _opaque('Code'),
 }
